@@ -2070,15 +2070,21 @@ def run(ctx: Ctx):
 
 
 def search(ctx: Ctx, reason: str):
+    # When only the TRANSLATOR gave up (a shape of the source it does not know) the main run has already compared the
+    # whole behaviour with the model and evaluated the oracle on it without finding anything: a second, fresh sample
+    # of the same size adds little, so the search is kept short (the verdict is `no-failing-input-found` either way).
+    parts = [x.strip() for x in reason.split(";") if x.strip()]
+    light = bool(parts) and all(x.startswith("translator") for x in parts) and ctx.tier == "quick"
+    ctx.extra["search_mode"] = "light (translator-only)" if light else "full"
     run_tour(ctx, False)
     run_special(ctx, False)
     run_exhaustive(ctx, range(1, 5 if ctx.tier == "quick" else 6), False, tag="search-plain")
     run_exhaustive(ctx, range(1, 4 if ctx.tier == "quick" else 5), False, EXTRA_KINDS, tag="search-one-extra-item")
-    run_loaded(ctx, ctx.scale(150, 600), False)
-    run_persist(ctx, 60, False)
-    run_own(ctx, ctx.scale(150, 300), False)
-    run_multi(ctx, ctx.scale(250, 600), False)
-    run_random(ctx, ctx.scale(500, 4000), 4, False)
+    run_loaded(ctx, 60 if light else ctx.scale(150, 600), False)
+    run_persist(ctx, 20 if light else 60, False)
+    run_own(ctx, 50 if light else ctx.scale(150, 300), False)
+    run_multi(ctx, 80 if light else ctx.scale(250, 600), False)
+    run_random(ctx, 120 if light else ctx.scale(500, 4000), 3 if light else 4, False)
 
 
 def replay(ctx: Ctx, rec: dict):
